@@ -3,15 +3,21 @@ package props
 
 import (
 	"mcverif/engine"
+	"mcverif/props/c08"
 	"mcverif/props/c09"
 	"mcverif/props/c10"
+	"mcverif/props/c13"
+	"mcverif/props/c14"
 	"mcverif/props/c15"
 	"mcverif/props/c16"
 )
 
 var Registry = map[string]engine.Spec{
+	"C08": c08.Spec,
 	"C09": c09.Spec,
 	"C10": c10.Spec,
+	"C13": c13.Spec,
+	"C14": c14.Spec,
 	"C15": c15.Spec,
 	"C16": c16.Spec,
 }
